@@ -312,6 +312,8 @@ class Engine:
             if isinstance(ty, TOpt):
                 inner = V(ty.t, ty.sort().v(v.t))
                 return z3.And(ty.sort().is_some(v.t), self.truthy(inner, node))
+            if isinstance(ty, TEnum):
+                return z3.BoolVal(True)        # members of a plain Enum are truthy (enum.Enum defines neither __bool__ nor __len__)
             if isinstance(ty, TObj):
                 tr = self.c.truthy_of.get(ty.name)
                 if tr is None:
